@@ -35,7 +35,7 @@ def U(name, props, kind, src, harness, enforce=None, contract=None, replace=(), 
       link=(), pre='', flags_add=(), flags_del=(), unwind=None, defs=None, timeout=(240, 900),
       min_obl=1, note='', bound=None, assumes=(), expect_loops_closed=True, post='',
       replay=None, objbits=None, unwindset=None, nocanary=False, contracts_inc=(),
-      thorough_only=False, solver=None, sub=None):
+      thorough_only=False, solver=None, sub=None, pre_instrument=None):
     """Declare a proof unit.
 
     kind     'contract'  dfcc-enforced contract on a real function, every loop closed by a loop
@@ -61,7 +61,7 @@ def U(name, props, kind, src, harness, enforce=None, contract=None, replace=(), 
                 defs=defs or {}, timeout=timeout, min_obl=min_obl, note=note, bound=bound,
                 assumes=list(assumes), post=post, replay=replay, objbits=objbits,
                 unwindset=unwindset, nocanary=nocanary, contracts_inc=list(contracts_inc),
-                thorough_only=thorough_only, solver=solver, sub=sub or '')
+                thorough_only=thorough_only, solver=solver, sub=sub or '', pre_instrument=pre_instrument)
 
 
 class Undecided(Exception):
@@ -69,8 +69,8 @@ class Undecided(Exception):
 
 
 def _limit():
-    # 12 GB address space per tool process
-    resource.setrlimit(resource.RLIMIT_AS, (12 << 30, 12 << 30))
+    # 28 GB address space per tool process
+    resource.setrlimit(resource.RLIMIT_AS, (28 << 30, 28 << 30))
     os.setsid()
 
 
@@ -177,6 +177,13 @@ def run_unit(unit, tier, keep=False, verbose=False):
         rc, out, _ = _run(cmd, work, 300, os.path.join(work, 'cc.log'))
         if rc != 0:
             raise Undecided('goto-cc failed: ' + _tail(os.path.join(work, 'cc.log')))
+        # 1b. optional goto-instrument pass before contracts (e.g. --restrict-function-pointer)
+        if unit.get('pre_instrument'):
+            a2 = os.path.join(work, 'a2.gb')
+            rc, out, _ = _run(['goto-instrument'] + list(unit['pre_instrument']) + [a_gb, a2], work, 300, os.path.join(work, 'gi0.log'))
+            if rc != 0:
+                raise Undecided('goto-instrument (pre) failed: ' + _tail(os.path.join(work, 'gi0.log')))
+            a_gb = a2
         # 2. contracts
         nloops = sum(len([k for k in f if k != 'count']) for t in unit['loops'].values() for f in t.values())
         res['loops_declared'] = nloops
